@@ -12,7 +12,7 @@ import errno
 import struct
 
 from . import wire
-from .vnet import EOF, RST
+from .vnet import EOF, RST, AGAIN
 
 # GEX selection styles
 STRICT, ROUNDUP, OPENSSH, LENIENT, PREFER = 'strict', 'roundup', 'openssh', 'lenient', 'prefer'
@@ -69,6 +69,9 @@ class Conn:
             return b''
         if head is RST:
             return RST
+        if head is AGAIN:
+            self.out.popleft()
+            return AGAIN
         if self.world.coalesce:
             buf = b''
             while self.out and isinstance(self.out[0], bytes) and len(buf) < size:
@@ -144,6 +147,8 @@ class Conn:
                 self._finish(RST)
                 self.rst_known = True
                 return
+            elif kind == 'again':
+                self.out.append(AGAIN)
             elif kind == 'stall':
                 self.stalled = True
                 self.record['events'].append('stall')
@@ -271,6 +276,16 @@ class Conn:
         if kind == 'split':
             self.out.append(data[:fault[1]])
             self.out.append(data[fault[1]:])
+            return False
+        if kind == 'split_again':    # the message in two segments with one receive call in between answered EAGAIN
+            self.out.append(data[:fault[1]])
+            self.out.append(AGAIN)
+            self.out.append(data[fault[1]:])
+            return False
+        if kind == 'again':          # EAGAIN before the message
+            for _ in range(fault[1]):
+                self.out.append(AGAIN)
+            self._queue(data)
             return False
         if kind == 'seg1':
             for i in range(len(data)):
